@@ -1,5 +1,6 @@
 import SvModel.Core.Pp
 import SvModel.Lemmas.Walker
+import SvModel.Lemmas.SkipInv
 /-!
 # C04 — conditional compilation selects exactly the IEEE 22.6 branch (decision logic)
 
@@ -166,5 +167,47 @@ theorem C04_dead_branch_inert (C : Cfg) (inp : Input) (s path : Bytes) (ii sc : 
 /-- non-vacuity -/
 example : condPlan true (fun n => n == [66]) [65] [[88], [66], [66]] true
     = (true, [true, false, true], true) := by decide
+
+
+/-! ### towards the hypothesis of `C04_dead_branch_inert`: the skip list and the shape of parse trees -/
+
+/-- the comparison the skip list uses is equality (the model's `==` on trees is the hand-written structural one, `Tree.beq`, proved lawful) -/
+theorem C04_skip_list_is_membership (l : List Tree) (t : Tree) : l.contains t = true ↔ t ∈ l := contains_iff_mem l t
+
+/-- in a tiled forest (what every successful parse returns: `C06_pp_parse_lossless`) all tokens are different … -/
+theorem C04_tiled_leaves_distinct (inp : Input) (ls : List (Nat × Nat × Nat)) (p q : Nat) (h : Chain inp p ls q) : ls.Nodup :=
+  chain_nodup ls p q h
+
+/-- … hence a token-carrying sub-tree of one tree of the forest is not (equal to) a sub-tree of the trees after it: occurrences are values -/
+theorem C04_subtrees_of_siblings_differ (t : Tree) (rest : List Tree) (hn : (leaves t ++ leavesL rest).Nodup) (d : Tree)
+    (hd : d ∈ pre t) (hl : leafy d) : d ∉ preL rest := not_mem_preL_of_mem_pre t rest hn d hd hl
+
+/-- every node the conditional arm lists is a child of the `` `ifdef `` / `` `ifndef `` node (the arms only list siblings) -/
+theorem C04_arm_lists_children (K : PpKinds) (kids : List Tree) (kw ifid ifbody : Tree) (elsifs : List (Tree × Tree × Tree))
+    (els : Option (Tree × Tree)) (plan : Bool × List Bool × Bool) (h : splitCond K kids = some (kw, ifid, ifbody, elsifs, els)) :
+    ∀ n ∈ condSkipNodes kw ifid ifbody elsifs els plan, n ∈ kids :=
+  condSkipNodes_sub_kids K kids kw ifid ifbody elsifs els plan h
+
+/-- **the hypothesis of `C04_dead_branch_inert` holds right after the conditional arm** for every child of the directive node (keywords, names,
+    all bodies): none of its proper descendants is on the skip list — provided the directive's tokens are pairwise different (tiling) and none of
+    its nodes was listed before. -/
+theorem C04_hypothesis_after_arm (K : PpKinds) (x : Tree) (w : WState) (kw ifid ifbody : Tree) (elsifs : List (Tree × Tree × Tree))
+    (els : Option (Tree × Tree)) (plan : Bool × List Bool × Bool)
+    (hn : (leaves x).Nodup) (hfresh : ∀ d ∈ pre x, d ∉ w.skipNodes)
+    (hs : splitCond K x.kids = some (kw, ifid, ifbody, elsifs, els)) (t : Tree) (ht : t ∈ x.kids) :
+    ∀ d ∈ preL t.kids, (skipPushAll w (condSkipNodes kw ifid ifbody elsifs els plan)).skipNodes.contains d = false :=
+  cond_arm_hd K x w kw ifid ifbody elsifs els plan hn hfresh hs t ht
+
+/-- **what is listed later comes from the sub-trees walked later**: every `Enter` arm, at any node `x`, adds to the skip list only `x` itself or
+    descendants of `x` (all twelve arms, every callee). With `C04_subtrees_of_siblings_differ`: nothing listed while an earlier sibling of a dead
+    body is processed can equal a node inside the dead body. NOT proved: the induction along the whole event list that chains these two facts
+    (the remaining gap between `C04_hypothesis_after_arm` and the hypothesis at the moment the dead body is reached). -/
+theorem C04_arms_list_only_their_subtree (C : Cfg) (recI) (recU) (inp : Input) (s path : Bytes) (ii sc : Bool) (rd id : Nat) (w w' : WState) (x : Tree)
+    (h : enterStep C recI recU inp s path ii sc rd id w x = .ok w') :
+    ∀ n ∈ w'.skipNodes, n ∈ w.skipNodes ∨ n ∈ pre x :=
+  enterStep_lists_in_subtree C recI recU inp s path ii sc rd id w w' x h
+
+/-- non-vacuity of the membership test: a node is found on a list that holds an equal node built separately -/
+example : ([Tree.node 7 [.leaf 3 2 1], .leaf 9 1 1] : List Tree).contains (.node 7 [.leaf 3 2 1]) = true := by decide
 
 end Sv
